@@ -10,14 +10,15 @@ TB = [
     "Rust harness (MODULES[\"find\"].exec and the find() lookup on a sandbox tree), python tree generator",
 ]
 
-NAMES = ["a", "b.log", "c.txt", ".hid", "sub", ".dot", "x.log", "deep"]
+# "sub"/"sub2"/"sub-old": the text of one root may be a string prefix of a sibling root without being its ancestor
+NAMES = ["a", "b.log", "c.txt", ".hid", "sub", ".dot", "x.log", "deep", "sub2", "sub-old"]
 
 
 def gen_tree(rng, depth, name):
     """python tree: ('f', name, size) | ('l', name, target) | ('d', name, [kids])"""
     kids = []
     used = set()
-    for _ in range(rng.randint(0, 4)):
+    for _ in range(rng.randint(0, 5)):
         n = rng.choice(NAMES)
         if n in used:
             continue
@@ -80,13 +81,16 @@ def gen_case(rng, with_ignore):
     if with_ignore:
         t[2].append(('f', '.ignore', 6))     # holds "*.log\n"
     dirs = subdirs(t)
-    nroots = rng.choice([1, 1, 1, 2])
+    nroots = rng.choice([1, 1, 2, 2, 3])
     roots = rng.sample(dirs, min(nroots, len(dirs)))
-    # avoid nested roots (a path under two roots is listed twice by design of a multi-root walk)
-    if len(roots) == 2:
-        a, b = ["/".join(r[0] + (r[1][1],)) for r in roots]
-        if a.startswith(b) or b.startswith(a):
-            roots = roots[:1]
+    # avoid nested roots (a path under two roots is listed twice by design of a multi-root walk);
+    # sibling roots whose names merely share a textual prefix (sub, sub2) are kept
+    keep = []
+    for r in roots:
+        a = r[0] + (r[1][1],)
+        if not any(a[:len(b)] == b or b[:len(a)] == a for b in (k[0] + (k[1][1],) for k in keep)):
+            keep.append(r)
+    roots = keep
     p = dict(file_type=rng.choice(["any", "directory", "file", "file", "link"]), hidden=rng.random() < 0.4, recurse=rng.random() < 0.6,
              patterns=rng.sample(RES, rng.choice([0, 0, 1, 2])), excludes=rng.sample(RES[1:], rng.choice([0, 0, 1])),
              size=rng.choice([None, None, 100, 5, 0]))
@@ -175,7 +179,8 @@ def c16(run, replay=None):
         if sorted(got) != model:
             missing = sorted(set(model) - set(got))
             extra = sorted(set(got) - set(model))
-            if ig and not p["hidden"] and not extra and all(m.endswith(".log") for m in missing):
+            # the ignore file's glob also prunes directories: everything below a directory named *.log is dropped too
+            if ig and not p["hidden"] and not extra and all(any(comp.endswith(".log") for comp in m.split("/")[1:]) for m in missing):
                 run.known("K18-ignore-files-honoured", "")
                 continue
             if dup and sorted(set(got)) == model:
